@@ -1,6 +1,7 @@
 import SqlgrepModel.Lemmas.ParseFuelStmt
 import SqlgrepModel.Lemmas.ParseLocStmt
 import SqlgrepModel.Lemmas.ParseJson
+import SqlgrepModel.Lemmas.Lower
 /-
 C14 — parsing is total: any text yields a statement or a located error (parser part).
 
@@ -129,10 +130,87 @@ theorem no_empty_json_path_in_a_tree (T : PrecTables) (toks : List PTok) (t : PO
     · simp at h
     · simp at h
 
-/-! Number out of range and invalid regular expressions are not parser facts: `99999999999999999999` is rejected by
-the tokenizer (`IntConvertError`, `Props/C14Lex.lean`; oracle `reject` texts in `harness/src/c14.rs`), an invalid
-pattern by `Regex::new` inside `TableDefinition::new`, mapped to `InvalidPattern` by the lowering (`Model/Lower.lean`,
-`lower_invalid_pattern_is_error` below once the lowering section is present; oracle: the `reject` texts). -/
+/-! ### the lowering (`parser_tree_converter.rs`, `Model/Lower.lean`) -/
+
+open Lower in
+/-- **The lowering never panics**: for every tree without an empty JSON path (every tree the parser returns,
+`no_empty_json_path_in_a_tree`) and every regex oracle, `transform_statement` ends with a statement or a
+`ConvertParserTreeError`. Every `arguments.remove(0)` site is guarded by the length test before it; the
+`from_linear` `unwrap` needs an empty path. (It is total by structural recursion.) -/
+theorem lower_never_panics (regexValid : List Char → Bool) (t : POp) (h : t.PathsOk) :
+    ∀ site, lowerStatement regexValid t ≠ .panic site :=
+  lowerStatement_noPanic regexValid t h
+
+open Lower in
+/-- **Parsing + lowering is total**: on every non-empty token vector `parsing::parse` (after the tokenizer) ends with a
+statement, a parser error or a conversion error — no panic, no fuel exhaustion. -/
+theorem parse_and_lower_total (T : PrecTables) (regexValid : List Char → Bool) (toks : List PTok) (h : toks ≠ []) :
+    (∃ e, parseTokens T toks = .error e) ∨
+    (∃ t, parseTokens T toks = .tree t ∧
+      ((∃ s, lowerStatement regexValid t = .ok s) ∨ (∃ e, lowerStatement regexValid t = .err e))) := by
+  rcases parse_total T toks h with ⟨t, ht⟩ | ⟨e, he⟩
+  · right
+    refine ⟨t, ht, ?_⟩
+    have hp := lower_never_panics regexValid t (no_empty_json_path_in_a_tree T toks t ht)
+    cases hl : lowerStatement regexValid t with
+    | ok s => exact .inl ⟨s, rfl⟩
+    | err e => exact .inr ⟨e, rfl⟩
+    | panic s => exact absurd hl (hp s)
+  · exact .inl ⟨e, he⟩
+
+open Lower in
+/-- **Wrong number of aggregate arguments is an error**: for an aggregate name (any letter case) with a number of
+arguments other than the accepted one (`count`: 0 or 1; `percentile`, `string_agg`: 2; the others: 1),
+`transform_call_aggregate` answers with an error (`ExpectedArgument` / `TooManyArguments`, or the error of an
+argument) — never a panic, never an aggregate. -/
+theorem wrong_aggregate_arity_is_error (loc : Loc) (name : List Char) (args : List PExpr) (distinct : Option Bool)
+    (index : Nat) (hname : isAggregateName name = true)
+    (harity : validArity (str (lowerChars name)) args.length = false) :
+    ∃ e, lowerCallAggregate loc name args distinct index = .err e :=
+  lowerCallAggregate_arity loc name args distinct index hname harity
+
+open Lower in
+/-- … and so is the projection that consists of such a call: `SELECT string_agg(x) FROM t` is rejected -/
+theorem wrong_aggregate_arity_projection_is_error (loc : Loc) (name : List Char) (args : List PExpr)
+    (distinct : Option Bool) (index : Nat) (hname : isAggregateName name = true)
+    (harity : validArity (str (lowerChars name)) args.length = false) :
+    ∃ e, lowerAggregate (.call loc name args distinct) index = .err e := by
+  unfold lowerAggregate
+  split
+  · exact ⟨_, rfl⟩
+  · have hpos : countAggregates (.call loc name args distinct) > 0 := by
+      rw [countAggregates]; simp [hname]
+    simp only [hpos, if_true]
+    have hx : extractAggregate (.call loc name args distinct) = (some (.call name args distinct), true, .plain (.call loc name args distinct)) := by
+      rw [extractAggregate]; simp [hname]
+    obtain ⟨e, he⟩ := lowerCallAggregate_arity (PExpr.loc (.call loc name args distinct)) name args distinct index hname harity
+    simp only [hx, he]
+    exact ⟨_, rfl⟩
+
+open Lower in
+/-- **Invalid pattern is an error**: when `Regex::new` rejects one of the patterns of a table definition (oracle
+`regexValid`), `create_create_table_statement` answers `InvalidPattern` at the statement's location. -/
+theorem lower_invalid_pattern_is_error (regexValid : List Char → Bool) (c : PCreate) (h : c.PathsOk)
+    (hbad : ∃ p ∈ c.patterns, regexValid p.2.1 = false) :
+    lowerCreate regexValid c = .err ⟨c.loc, .invalidPattern⟩ := by
+  have hnp := lowerColumns_noPanic c.columns h
+  have hall : (c.patterns.all (fun p => regexValid p.2.1)) = false := by
+    rw [Bool.eq_false_iff]
+    intro hall
+    rw [List.all_eq_true] at hall
+    obtain ⟨p, hp, hv⟩ := hbad
+    have := hall p hp
+    simp [hv] at this
+  unfold lowerCreate
+  cases hc : lowerColumns c.columns with
+  | ok cols => simp [hall]
+  | err e => exact absurd hc (lowerColumns_noErr _ _)
+  | panic s => exact absurd hc (hnp s)
+
+/-! Number out of range is not a parser fact: `99999999999999999999` is rejected by the tokenizer (`IntConvertError`,
+`Props/C14Lex.lean`; oracle: the `reject` texts of `harness/src/c14.rs`). An invalid regular expression is a
+`Regex::new` fact, mapped to `InvalidPattern` by `lower_invalid_pattern_is_error`; the oracle is shipped with every
+`stmt` case and the `reject` texts demand the error on the implementation. -/
 
 /-! ### non-vacuity -/
 
